@@ -448,9 +448,32 @@ def judge_mosaic(tag, case, mosaic, undefined, problems, img, gx0, gy0, mode):
     return res
 
 
-def _mkimage(arr, fmt):
-    from toasty.image import Image
-    return Image.from_array(arr, default_format=fmt)
+IMAGE_FLAVOURS = ("default", "png", "npy", "fits", "file:png", "file:npy", "file:fits")
+
+
+def _mkimage(arr, flavour, workdir):
+    """The input Image with its default_format set the way the library sets it:
+    "default"  Image.from_array(arr)                      (class default)
+    png|npy|fits  Image.from_array(arr, default_format=..)
+    file:X     ImageLoader().load_path() on a file of type X holding the array
+    The image's default format is independent of the pyramid's: tiles are stored in the PYRAMID's format."""
+    import numpy as np
+    from toasty.image import Image, ImageLoader
+    if flavour == "default":
+        return Image.from_array(arr)
+    if not flavour.startswith("file:"):
+        return Image.from_array(arr, default_format=flavour)
+    ext = flavour[5:]
+    src = os.path.join(workdir, "source." + ext)
+    if ext == "png":
+        from PIL import Image as PILImage
+        PILImage.fromarray(arr).save(src)
+    elif ext == "npy":
+        np.save(src, arr)
+    else:
+        from astropy.io import fits
+        fits.writeto(src, arr, overwrite=True)
+    return ImageLoader().load_path(src)
 
 
 def reassembly_case(args):
@@ -461,8 +484,8 @@ def reassembly_case(args):
     import shutil
     import tempfile
     import numpy as np
-    kind, mode, fmt, dims, seed, scratch = args
-    case = {"path": kind, "mode": mode, "format": fmt, "dims": list(dims), "seed": seed}
+    kind, mode, fmt, dims, seed, scratch, flavour = args
+    case = {"path": kind, "mode": mode, "format": fmt, "dims": list(dims), "seed": seed, "image_format": flavour}
     res = []
     d = tempfile.mkdtemp(prefix="c08-", dir=scratch)
     sink = io.StringIO()
@@ -485,21 +508,24 @@ def reassembly_case(args):
         out = os.path.join(d, "out")
         with contextlib.redirect_stdout(sink), contextlib.redirect_stderr(sink):
             try:
+                if kind != "cli":
+                    source = _mkimage(img.copy(), flavour, d)
+                    img = np.array(source.asarray())          # what the library was handed, in display orientation
                 if kind == "lib":
                     pio = PyramidIO(out, default_format=fmt)
-                    tile_study_image(_mkimage(img.copy(), fmt), pio)
+                    tile_study_image(source, pio)
                     template = pio.get_path_scheme() + "." + fmt
                     olev = lev
                 elif kind == "sub":
                     pio = PyramidIO(out, default_format=fmt)
                     st = StudyTiling(W, H).compute_for_subimage(ix, iy, sw, sh)
-                    st.tile_image(_mkimage(img.copy(), fmt), pio)
+                    st.tile_image(source, pio)
                     template = pio.get_path_scheme() + "." + fmt
                     olev = lev
                 elif kind == "builder":
                     pio = PyramidIO(out, default_format=fmt)
                     b = Builder(pio)
-                    b.tile_base_as_study(_mkimage(img.copy(), fmt))
+                    b.tile_base_as_study(source)
                     b.default_tiled_study_astrometry()
                     b.write_index_rel_wtml()
                     template, olev, _ft = wtml_template(out)
@@ -580,7 +606,7 @@ def run(ctx):
     big += [(4097, 4096), (8193, 8191), (5000, 7000)] + ([(12000, 9000), (16385, 16383)] if not quick else [])
 
     # ---- TLC: 2-D model(s), axis model, sanity of the slice theorem -- run side by side, <= 8 workers in total
-    img_bounds = [(4, 9, 9), (2, 7, 7)] if quick else [(4, 13, 13), (4, 20, 6), (4, 6, 20), (2, 9, 9), (8, 11, 11)]
+    img_bounds = [(4, 8, 8), (2, 7, 7)] if quick else [(4, 13, 13), (4, 20, 6), (4, 6, 20), (2, 9, 9), (8, 11, 11)]
     sublens = tla.lit(set(crit)) if quick else "(1..1100) \\cup " + tla.lit(set(crit))
     jobs = []
     for (ts, mw, mh) in img_bounds:
@@ -706,24 +732,44 @@ def run(ctx):
         for (mode, fmt) in MODE_FORMATS + ([("I32", "npy"), ("I32", "fits")] if not quick else []):
             for k, dims in enumerate(sizes):
                 kind = "builder" if (k % 3 == 2) else "lib"
-                cases.append((kind, mode, fmt, dims, seed + len(cases), ctx.scratch))
+                cases.append((kind, mode, fmt, dims, seed + len(cases), ctx.scratch, fmt))
         for (mode, fmt, dims) in [("RGB", "png", (300, 513)), ("RGBA", "png", (257, 255)), ("F32", "npy", (513, 2)),
                                   ("F64", "fits", (300, 513)), ("F32", "fits", (255, 257)), ("I16", "fits", (256, 256))]:
-            cases.append(("cli", mode, fmt, dims, seed + len(cases), ctx.scratch))
+            cases.append(("cli", mode, fmt, dims, seed + len(cases), ctx.scratch, "file:" + fmt))
         # sub-images placed inside a larger tiling
         subpool = [q for q in all_sub_cases if q[0] >= 255 and q[1] >= 255 and q[4] * q[5] > 1]
         nsub = 36 if quick else 400
         for k in range(nsub):
             q = subpool[rng.randrange(len(subpool))]
             mode, fmt = MODE_FORMATS[k % len(MODE_FORMATS)]
-            cases.append(("sub", mode, fmt, q, seed + len(cases), ctx.scratch))
+            cases.append(("sub", mode, fmt, q, seed + len(cases), ctx.scratch, fmt))
+        # the image's own default format is independent of the pyramid's format (Python API): every image flavour the
+        # mode allows x every pyramid format that can hold the mode; the tiles' parity is the PYRAMID format's
+        xsizes = [(257, 255), (300, 513), (513, 2)] if quick else [(257, 255), (300, 513), (513, 2), (255, 257), (1025, 258), (256, 256)]
+        nx = 0
+        for (mode, fmt) in MODE_FORMATS:
+            colour = mode in ("RGB", "RGBA")
+            for flavour in IMAGE_FLAVOURS:
+                if flavour == fmt:
+                    continue                                   # already covered above
+                if colour and flavour in ("fits", "file:fits", "file:npy"):
+                    continue                                   # the library never produces these
+                if not colour and flavour in ("png", "file:png"):
+                    continue
+                for rep_ in range(1 if quick else 3):
+                    dims = xsizes[nx % len(xsizes)]
+                    kind = ("lib", "builder", "sub")[nx % 3]
+                    nx += 1
+                    if kind == "sub":
+                        dims = subpool[rng.randrange(len(subpool))]
+                    cases.append((kind, mode, fmt, dims, seed + len(cases), ctx.scratch, flavour))
         if only is not None:
-            cases = [c for c in cases if "path" in only and [c[0], c[1], c[2], list(c[3]), c[4]] ==
-                     [only["path"], only["mode"], only["format"], list(only["dims"]), only["seed"]]]
+            cases = [c for c in cases if "path" in only and [c[0], c[1], c[2], list(c[3]), c[4], c[6]] ==
+                     [only["path"], only["mode"], only["format"], list(only["dims"]), only["seed"], only.get("image_format", c[2])]]
         for (res, case) in pool.imap(reassembly_case, cases, chunksize=2):
             ctx.count()
             ctx.trace_ok()
-            ctx.distinct(("io", case["path"], case["mode"], case["format"]) + tuple(case["dims"]))
+            ctx.distinct(("io", case["path"], case["mode"], case["format"], case["image_format"]) + tuple(case["dims"]))
             report(res, None)
     ctx.note("reassembly_cases", len(cases))
     if nviol[0]:
